@@ -93,7 +93,8 @@ def _write_xml_element_to_file(file, xml_element, indent: str):
 
 
 def _write_xml_string_to_file(file, xml_string: str, indent: str):
-    result = textwrap.indent(xml_string, indent)
+    # indent on "\n" only: textwrap.indent also splits on characters like U+2028 that may occur in text nodes
+    result = "\n".join(indent + line if line.strip() else line for line in xml_string.split("\n"))
     file.write(result.encode("utf-8"))
 
 
